@@ -287,6 +287,10 @@ def record_lists(nsub, tier, seed):
     out += [[a, b, c] for a in triples for b in triples for c in triples]
     if tier == "thorough":
         out += [[a, b, c, d] for a in small for b in small for c in small for d in small]
+    if nsub == 3:
+        # a record whose three white-space-free tokens spell a line of another layer of the format (clearsign armor)
+        for words in (["-----BEGIN", "PGP", "SIGNATURE-----"], ["-----BEGIN", "PGP", "MESSAGE-----"], ["-----END", "PGP", "SIGNATURE-----"]):
+            out += [[words], [small[0], words, small[1]], [words, small[0], small[1]]]
     return out
 
 
